@@ -42,6 +42,10 @@ type trOp struct {
 	Args []TV    `json:"args"`
 	Flds []trFld `json:"flds"`
 	Fuel int     `json:"fuel"`
+	// names of recorded calls the Go side cannot observe; zvdrv drops them from the field `ev` before comparing
+	Hide []string `json:"hide,omitempty"`
+	// receiver fields that are not compared (zvdrv drops them from its answer, the adapter does not report them)
+	Drop []string `json:"drop,omitempty"`
 }
 
 func tvInt(v int64) TV    { s := strconv.FormatInt(v, 10); return TV{I: &s} }
@@ -63,6 +67,8 @@ type trFn struct {
 	table, name string
 	gen         func(r *Rand) ([]TV, []trFld)
 	run         func(args []TV, flds []trFld) ([]TV, []trFld)
+	hide        []string
+	drop        []string
 }
 
 var trFns []trFn
@@ -104,7 +110,7 @@ func genCTR(r *Rand, tier string, emit func(op any)) {
 			if flds == nil {
 				flds = []trFld{}
 			}
-			emit(trOp{T: f.table, F: f.name, Args: args, Flds: flds, Fuel: 100000})
+			emit(trOp{T: f.table, F: f.name, Args: args, Flds: flds, Fuel: 100000, Hide: f.hide, Drop: f.drop})
 		}
 	}
 }
@@ -156,6 +162,7 @@ var probes = map[string]any{
 	"probeSwap": probeSwap, "probeLoop": probeLoop, "probeSwitch": probeSwitch, "probeRange": probeRange,
 	"probeMinMax": probeMinMax, "probeNamed": probeNamed, "probeAppend": probeAppend, "probeIndexByte": probeIndexByte,
 	"probeShadow": probeShadow, "probeWhile": probeWhile,
+	"probeTwo": probeTwo, "probeStruct": probeStruct, "probeForward": probeForward,
 }
 
 func randInt64(r *Rand) int64 {
@@ -253,4 +260,102 @@ func registerProbe(name string, fn any) {
 		return out, nil
 	}
 	trFns = append(trFns, trFn{table: "TransProbe", name: name, gen: gen, run: run})
+}
+
+// ---------------------------------------------------------------- round-2 probes with hand-written adapters
+
+func probeRecOf(flds []trFld) *probeRec {
+	r := &probeRec{n: int(fldOf(flds, "n").int64())}
+	tag := func(v TV) probeTag {
+		if len(*v.L) == 0 {
+			return nil
+		}
+		return probeID((*v.L)[0].int64())
+	}
+	r.link, r.other = tag(fldOf(flds, "link")), tag(fldOf(flds, "other"))
+	if s := *fldOf(flds, "sub").L; len(s) > 0 {
+		r.sub = &probePair{a: int(s[0].int64()), b: s[1].bytes()}
+	}
+	for _, k := range *fldOf(flds, "fns").L {
+		k := k
+		r.fns = append(r.fns, func(x int) int {
+			r.ev = append(r.ev, tvList([]TV{tvBytes([]byte("ProbeFn")), k, tvInt(int64(x))}))
+			return int(k.int64())*x + 1
+		})
+	}
+	return r
+}
+
+func (r *probeRec) fields(flds []trFld) []trFld {
+	var out []trFld
+	for _, f := range flds {
+		switch f.N {
+		case "n":
+			f.V = tvInt(int64(r.n))
+		case "ev":
+			f.V = tvList(append(append([]TV{}, *f.V.L...), r.ev...))
+		}
+		out = append(out, f)
+	}
+	return out
+}
+
+func genProbeRec(r *Rand) []trFld {
+	tag := func() TV {
+		if r.Chance(1, 3) {
+			return tvList(nil)
+		}
+		return tvList([]TV{tvInt(int64(r.Intn(3)))})
+	}
+	sub := tvList(nil)
+	if r.Bool() {
+		sub = tvList([]TV{tvInt(int64(r.Intn(100)) - 50), tvBytes(probeBytes(r))})
+	}
+	var fns []TV
+	for i, k := 0, r.Intn(4); i < k; i++ {
+		fns = append(fns, tvInt(int64(r.Intn(7))-3))
+	}
+	return []trFld{{"n", tvInt(int64(r.Intn(10)))}, {"link", tag()}, {"other", tag()}, {"sub", sub}, {"fns", tvList(fns)}, {"ev", tvList(nil)}}
+}
+
+func init() {
+	small := func(r *Rand) TV { return tvInt(int64(r.Intn(21)) - 10) }
+	trFns = append(trFns,
+		trFn{table: "TransProbe", name: "probeVariadic",
+			gen: func(r *Rand) ([]TV, []trFld) {
+				var xs []TV
+				for i, k := 0, r.Intn(5); i < k; i++ {
+					xs = append(xs, tvInt(randInt64(r)))
+				}
+				return []TV{tvInt(randInt64(r)), tvList(xs)}, nil
+			},
+			run: func(args []TV, _ []trFld) ([]TV, []trFld) {
+				var xs []int
+				for _, v := range *args[1].L {
+					xs = append(xs, int(v.int64()))
+				}
+				return []TV{tvInt(int64(probeVariadic(int(args[0].int64()), xs...)))}, nil
+			}},
+		trFn{table: "TransProbe", name: "probeDefer",
+			gen: func(r *Rand) ([]TV, []trFld) { return []TV{small(r), small(r)}, genProbeRec(r) },
+			run: func(args []TV, flds []trFld) ([]TV, []trFld) {
+				p := probeRecOf(flds)
+				v := p.probeDefer(int(args[0].int64()), int(args[1].int64()))
+				return []TV{tvInt(int64(v))}, p.fields(flds)
+			}},
+		trFn{table: "TransProbe", name: "probeNilable",
+			gen: func(r *Rand) ([]TV, []trFld) { return nil, genProbeRec(r) },
+			run: func(_ []TV, flds []trFld) ([]TV, []trFld) {
+				p := probeRecOf(flds)
+				a, b, c, d := p.probeNilable()
+				return []TV{tvBool(a), tvBool(b), tvBool(c), tvInt(int64(d))}, p.fields(flds)
+			}},
+		trFn{table: "TransProbe", name: "probeFnValues",
+			gen: func(r *Rand) ([]TV, []trFld) { return []TV{small(r)}, genProbeRec(r) },
+			run: func(args []TV, flds []trFld) ([]TV, []trFld) {
+				p := probeRecOf(flds)
+				v := p.probeFnValues(int(args[0].int64()))
+				return []TV{tvInt(int64(v))}, p.fields(flds)
+			}},
+	)
 }
